@@ -21,6 +21,14 @@ def cases(tier, seed):
                 continue
             for m in (1, 2, 3):
                 cs.append((cands, bl, m, bool((i + m) % 2), ("fractional", "random")[(i // 2 + m) % 2]))
+    # two candidates crossing the quota together with equal tallies and a surplus the coalition needs
+    for x, y, z, m in ((9, 9, 5, 3), (6, 6, 2, 2), (8, 8, 3, 3), (5, 5, 1, 2)):
+        for third in ("C", "D"):
+            A, B, C, D = (frozenset(t) for t in "ABCD")
+            bl = [((A, B, frozenset(third)), F(x)), ((B, A, frozenset(third)), F(y)), ((frozenset("D" if third == "C" else "C"),), F(z))]
+            for sim in (True, False):
+                for tr in ("fractional", "random"):
+                    cs.append((gen.NAMES[:4], bl, m, sim, tr))
     rng = random.Random(seed + 7)
     c4 = gen.NAMES[:4]
     full4 = [tuple(frozenset([c]) for c in p) for p in itertools.permutations(c4)]
@@ -51,6 +59,13 @@ def check_case(case):
             if need > 0:
                 req[S] = (need, wS)
     out["nontrivial"] = bool(req)
+    # candidate names contained in one another (the count must not depend on spelling)
+    ren = {"A": "Smith-Jones", "B": "Smith", "C": "Jones", "D": "Jo"}
+    if (hash(str(case)) & 3) == 0:
+        cands = [ren[c] for c in cands]
+        bl = [(tuple(frozenset(ren[c] for c in s) for s in r), w) for r, w in bl]
+        req = {tuple(ren[c] for c in S): v for S, v in req.items()}
+        desc = dict(gen.lit(cands, bl), m=m, simultaneous=sim, transfer=tr, threshold=T)
     prof = gen.mk_profile(cands, bl)
     for sd in (1, 2):
         random.seed(sd)
